@@ -786,7 +786,7 @@ func checkContainerVariables(c *core.Ctx, pkg *packages.Package) {
 		})
 		if !ok {
 			// matrices seen through a view: n, m := X.Dims(); for i < n { for j < m { X.AT(i,j).SetVariable(i*m + j, n*m, order) } }
-			if variablesRowMajorForm(info, fd, orderPar) {
+			if variablesRowMajorForm(info, fd, orderPar) || variablesSparseViewForm(info, fd, orderPar) {
 				ok = true
 			}
 		}
@@ -907,6 +907,128 @@ func variablesRowMajorForm(info *types.Info, fd *ast.FuncDecl, orderPar types.Ob
 			good = true
 			return true
 		})
+		return true
+	})
+	return good
+}
+
+// variablesSparseViewForm recognises the seeding of a sparse matrix through its stored entries: with n, m := X.Dims(),
+// a range over the value map with key k, i, j := X.ij(k), a `continue` for coordinates outside [0,n) x [0,m), and
+// v.SetVariable(i*m + j, n*m, order) on the range value. Stored entries inside the view get their own row-major number.
+func variablesSparseViewForm(info *types.Info, fd *ast.FuncDecl, orderPar types.Object) bool {
+	var nObj, mObj types.Object
+	ast.Inspect(fd.Body, func(x ast.Node) bool {
+		as, ok := x.(*ast.AssignStmt)
+		if !ok || len(as.Lhs) != 2 || len(as.Rhs) != 1 {
+			return true
+		}
+		if ce, ok := ast.Unparen(as.Rhs[0]).(*ast.CallExpr); ok && calleeName(ce) == "Dims" && len(ce.Args) == 0 {
+			if a, ok := as.Lhs[0].(*ast.Ident); ok {
+				nObj = info.Defs[a]
+			}
+			if b, ok := as.Lhs[1].(*ast.Ident); ok {
+				mObj = info.Defs[b]
+			}
+		}
+		return true
+	})
+	if nObj == nil || mObj == nil {
+		return false
+	}
+	good := false
+	ast.Inspect(fd.Body, func(x ast.Node) bool {
+		rs, ok := x.(*ast.RangeStmt)
+		if !ok {
+			return true
+		}
+		key, ok1 := rs.Key.(*ast.Ident)
+		val, ok2 := rs.Value.(*ast.Ident)
+		if !ok1 || !ok2 {
+			return true
+		}
+		var iObj, jObj types.Object
+		guarded := false
+		isVar := func(e ast.Expr, o types.Object) bool {
+			id, ok := ast.Unparen(e).(*ast.Ident)
+			return ok && o != nil && info.Uses[id] == o
+		}
+		for _, st := range rs.Body.List {
+			switch y := st.(type) {
+			case *ast.AssignStmt:
+				if len(y.Lhs) == 2 && len(y.Rhs) == 1 {
+					if ce, ok := ast.Unparen(y.Rhs[0]).(*ast.CallExpr); ok && calleeName(ce) == "ij" && len(ce.Args) == 1 && isVar(ce.Args[0], info.Defs[key]) {
+						if a, ok := y.Lhs[0].(*ast.Ident); ok {
+							iObj = info.Defs[a]
+						}
+						if b, ok := y.Lhs[1].(*ast.Ident); ok {
+							jObj = info.Defs[b]
+						}
+					}
+				}
+			case *ast.IfStmt:
+				// if i < 0 || i >= n || j < 0 || j >= m { continue }
+				if len(y.Body.List) == 1 {
+					if br, ok := y.Body.List[0].(*ast.BranchStmt); ok && br.Tok == token.CONTINUE {
+						seen := map[string]bool{}
+						var walk func(e ast.Expr)
+						walk = func(e ast.Expr) {
+							be, ok := ast.Unparen(e).(*ast.BinaryExpr)
+							if !ok {
+								return
+							}
+							if be.Op == token.LOR {
+								walk(be.X)
+								walk(be.Y)
+								return
+							}
+							switch {
+							case be.Op == token.LSS && isVar(be.X, iObj) && types.ExprString(be.Y) == "0":
+								seen["i<0"] = true
+							case be.Op == token.LSS && isVar(be.X, jObj) && types.ExprString(be.Y) == "0":
+								seen["j<0"] = true
+							case be.Op == token.GEQ && isVar(be.X, iObj) && isVar(be.Y, nObj):
+								seen["i>=n"] = true
+							case be.Op == token.GEQ && isVar(be.X, jObj) && isVar(be.Y, mObj):
+								seen["j>=m"] = true
+							}
+						}
+						walk(y.Cond)
+						if len(seen) == 4 {
+							guarded = true
+						}
+					}
+				}
+				// if err := v.SetVariable(...); err != nil { return err }
+				if y.Init != nil && guarded {
+					ast.Inspect(y.Init, func(z ast.Node) bool {
+						ce, ok := z.(*ast.CallExpr)
+						if !ok || calleeName(ce) != "SetVariable" || len(ce.Args) != 3 {
+							return true
+						}
+						sel, ok := ast.Unparen(ce.Fun).(*ast.SelectorExpr)
+						if !ok || !isVar(sel.X, info.Defs[val]) {
+							return true
+						}
+						sum, ok := ast.Unparen(ce.Args[0]).(*ast.BinaryExpr)
+						if !ok || sum.Op != token.ADD || !isVar(sum.Y, jObj) {
+							return true
+						}
+						prod, ok := ast.Unparen(sum.X).(*ast.BinaryExpr)
+						if !ok || prod.Op != token.MUL || !(isVar(prod.X, iObj) && isVar(prod.Y, mObj) || isVar(prod.X, mObj) && isVar(prod.Y, iObj)) {
+							return true
+						}
+						tot, ok := ast.Unparen(ce.Args[1]).(*ast.BinaryExpr)
+						if !ok || tot.Op != token.MUL || !(isVar(tot.X, nObj) && isVar(tot.Y, mObj) || isVar(tot.X, mObj) && isVar(tot.Y, nObj)) {
+							return true
+						}
+						if isVar(ce.Args[2], orderPar) {
+							good = true
+						}
+						return true
+					})
+				}
+			}
+		}
 		return true
 	})
 	return good
